@@ -192,3 +192,103 @@ example : resolve exReg ["a", "b"] "c.x" = none := by decide +kernel
 example : (exReg.map (·.key)).Nodup := by decide +kernel
 
 end Pydjinni.Front
+
+namespace Pydjinni.Front
+
+/-! ### the deferred resolution loop binds every reference lexically and reports exactly the reference-level violations -/
+
+/-- what the rules say about one reference (cf. `Spec.refRule`) -/
+def refDiags (reg : Registry) (r : RefSite) : List Diag :=
+  match lexicalLookup reg r.ns r.name with
+  | none => [{ cls := "TypeResolvingException", rule := "unknown-type", file := r.file, pos := r.pos }]
+  | some d =>
+    if r.nargs > 0 && d.arity == 0 then [{ cls := "ParsingException", rule := "no-generics", file := r.file, pos := r.pos }]
+    else if r.nargs > 0 && d.arity != r.nargs then [{ cls := "ParsingException", rule := "generic-arity", file := r.file, pos := r.pos }]
+    else []
+
+theorem Pos.beq_iff (a b : Pos) : (a == b) = true ↔ a = b := by
+  cases a; cases b
+  simp only [Pos.mk.injEq]
+  constructor
+  · intro h
+    simp [BEq.beq, instBEqPos.beq] at h
+    exact h
+  · intro h
+    simp [BEq.beq, instBEqPos.beq, h]
+
+theorem Resolved.get_append_same (m : Resolved) (file : String) (pos : Pos) (d : Def) (h : m.get file pos = none) :
+    Resolved.get (m ++ [((file, pos), d)]) file pos = some d := by
+  unfold Resolved.get at *
+  rw [List.find?_append]
+  cases hf : m.find? (fun e => e.1.1 == file && e.1.2 == pos) with
+  | some x => simp [hf] at h
+  | none => simp [(Pos.beq_iff pos pos).mpr rfl]
+
+theorem Resolved.get_append_other (m : Resolved) (file file' : String) (pos pos' : Pos) (d : Def)
+    (hne : (file', pos') ≠ (file, pos)) :
+    Resolved.get (m ++ [((file', pos'), d)]) file pos = m.get file pos := by
+  unfold Resolved.get
+  rw [List.find?_append]
+  cases hf : m.find? (fun e => e.1.1 == file && e.1.2 == pos) with
+  | some x => simp
+  | none =>
+    have : ((file' == file) && (pos' == pos)) = false := by
+      cases h1 : file' == file <;> cases h2 : pos' == pos <;> simp
+      exact hne (by simp at h1; rw [h1, (Pos.beq_iff pos' pos).mp h2])
+    simp [this]
+
+/-- one step: a fresh reference is bound to what lexical scoping denotes (or stays unbound when nothing matches),
+    earlier bindings are untouched, and exactly the reference's own diagnostics are added -/
+theorem resolveStep_spec (reg : Registry) (m : Resolved) (ds : List Diag) (r : RefSite) (hfresh : m.get r.file r.pos = none) :
+    ∃ m', resolveStep reg (m, ds) r = .ok (m', ds ++ refDiags reg r)
+      ∧ m'.get r.file r.pos = lexicalLookup reg r.ns r.name
+      ∧ ∀ f p, (f, p) ≠ (r.file, r.pos) → m'.get f p = m.get f p := by
+  simp only [resolveStep, hfresh, resolve_eq_lexical, refDiags]
+  cases hl : lexicalLookup reg r.ns r.name with
+  | none => exact ⟨m, rfl, hfresh, fun _ _ _ => rfl⟩
+  | some d =>
+    refine ⟨m ++ [((r.file, r.pos), d)], ?_, Resolved.get_append_same m _ _ d hfresh,
+      fun f p hne => Resolved.get_append_other m f r.file p r.pos d (fun h => hne h.symm)⟩
+    simp only
+    split
+    · rfl
+    · split
+      · rfl
+      · simp
+
+/-- **Deferred resolution = lexical scoping, for every reference of the program.**
+    Given references at pairwise distinct positions, none of them bound yet, the loop terminates normally,
+    binds every reference to the declaration lexical lookup denotes in the registry of *all* declarations
+    (forward references included), and appends exactly the reference-level diagnostics of every reference. -/
+theorem resolveLoop_spec (reg : Registry) (refs : List RefSite) (m0 : Resolved) (ds0 : List Diag)
+    (hnd : (refs.map (fun r => (r.file, r.pos))).Nodup)
+    (hfresh : ∀ r ∈ refs, m0.get r.file r.pos = none) :
+    ∃ m, resolveLoop reg (m0, ds0) refs = .ok (m, ds0 ++ refs.flatMap (refDiags reg))
+      ∧ (∀ r ∈ refs, m.get r.file r.pos = lexicalLookup reg r.ns r.name)
+      ∧ (∀ f p, (f, p) ∉ refs.map (fun r => (r.file, r.pos)) → m.get f p = m0.get f p) := by
+  induction refs generalizing m0 ds0 with
+  | nil => exact ⟨m0, by simp [resolveLoop], by simp, fun _ _ _ => rfl⟩
+  | cons r rs ih =>
+    simp only [List.map_cons, List.nodup_cons] at hnd
+    obtain ⟨m1, hstep, hget, hother⟩ := resolveStep_spec reg m0 ds0 r (hfresh r (by simp))
+    have hfresh1 : ∀ x ∈ rs, m1.get x.file x.pos = none := by
+      intro x hx
+      have hne : (x.file, x.pos) ≠ (r.file, r.pos) := by
+        intro heq
+        exact hnd.1 (List.mem_map.mpr ⟨x, hx, heq⟩)
+      rw [hother x.file x.pos hne]
+      exact hfresh x (List.mem_cons_of_mem _ hx)
+    obtain ⟨m, hloop, hall, hout⟩ := ih m1 (ds0 ++ refDiags reg r) hnd.2 hfresh1
+    refine ⟨m, ?_, ?_, ?_⟩
+    · simp only [resolveLoop, hstep, bind, Except.bind, hloop, List.flatMap_cons, List.append_assoc]
+    · intro x hx
+      rcases List.mem_cons.mp hx with rfl | hx
+      · rw [hout x.file x.pos hnd.1]
+        exact hget
+      · exact hall x hx
+    · intro f p hnot
+      simp only [List.map_cons, List.mem_cons, not_or] at hnot
+      rw [hout f p hnot.2]
+      exact hother f p hnot.1
+
+end Pydjinni.Front
